@@ -243,6 +243,27 @@ def gen_cases(seed, tier):
         gid += 1
         for f in FORMS:
             cases.append(dict(kind="lockstep", form=f, ops=render_uniform(ops, f), group=f"dict{gid}", nregs=3))
+    # 2c'. two keys out of hundreds: every pair of keys that share their isotope number (isobars) or their symbol, in one
+    #      composition — set one, increment the other, read both
+    tkeys = all_table_keys()
+    groups_ = {}
+    for k in tkeys:
+        sym, iso = k.rsplit(":", 1)
+        groups_.setdefault(("sym", sym), []).append(k)
+        if iso != "0":
+            groups_.setdefault(("iso", iso), []).append(k)
+    npair = 0
+    for (kind_, _), ks in sorted(groups_.items()):
+        for a in range(len(ks)):
+            for b in range(a + 1, len(ks)):
+                npair += 1
+                if tier != "thorough" and npair % 3:
+                    continue
+                ops = ["new 0 vec", f"set 0 {ks[a]} 2", f"inc 0 {ks[b]} 3", f"get 0 {ks[a]}", f"get 0 {ks[b]}", "fmass 0",
+                       f"iadd 0 {ks[a]} 1", f"get 0 {ks[b]}", "fmass 0"]
+                gid += 1
+                for f in (FORMS if npair % 2 else FORMS[:2]):
+                    cases.append(dict(kind="lockstep" if npair % 2 else "pairs", form=f, ops=render_uniform(ops, f), group=f"pair{gid}", nregs=1))
     # 2c. the same entries inserted in two different orders, both masses cached, then compared (equality must not look at
     #     anything that depends on the order — e.g. a floating-point sum); and string constructors that name one key by two
     #     spellings (`C[13]`, `C[013]`)
